@@ -266,6 +266,7 @@ func init() {
 			{Name: "readers", Race: true, QShards: 2, TShards: 4, Run: c19Readers},
 			{Name: "wide", TShards: 4, Run: c19Wide},
 			{Name: "parallel", Race: true, Run: treeParallel},
+			firstCallUnit(firstTree),
 		},
 	})
 }
@@ -285,9 +286,16 @@ func c18Streams_(c *Ctx) {
 			c.Case(idx, func(k *K) {
 				r := k.Rand()
 				var x []byte
+				wf := false
 				switch r.IntN(4) {
 				case 0:
 					x = wellFormed(r, it.format, 1+r.IntN(30))
+					wf = true
+					if k.Idx%5 == 0 {
+						// a line longer than the usual I/O buffers (also a header line, for sam); kept whole
+						x = wellFormedLong(r, it.format)
+						k.Count("long_line_inputs", 1)
+					}
 				case 1:
 					x = wellFormed(r, it.format, 0)
 					if len(x) > 0 {
@@ -296,7 +304,7 @@ func c18Streams_(c *Ctx) {
 				default:
 					x = nearValid(r, it.format)
 				}
-				if len(x) > 6000 {
+				if len(x) > 6000 && !wf {
 					x = x[:6000]
 				}
 				k.Input("iterator", it.name)
@@ -326,6 +334,31 @@ func c18Streams_(c *Ctx) {
 				stopMonitor(k, it.name, func() rawIter { return it.mk(x, path) }, stopOpts{errorLast: it.errorLast, limit: len(x) + 10})
 				if k.c.Rep.Counters["items_"+it.name]-before >= 2 {
 					k.Nontrivial([]byte(it.name), x, []byte(path[max(0, len(path)-3):]))
+				}
+				if wf && it.name == "sam.Reader" && !k.Failed() {
+					// What "an uninterrupted run" is, for well-formed input, is pinned from the sibling iterator:
+					// sam.Reader delivers what sam.ReaderHeader delivers, less the header lines.
+					want, _ := collect(func(yield func(string, error) bool) {
+						for sh, err := range sam.ReaderHeader(bytes.NewReader(x)) {
+							if err == nil && sh.H != nil {
+								continue
+							}
+							if err != nil {
+								if !yield("", err) {
+									return
+								}
+								continue
+							}
+							if !yield(samKey(sh.S), nil) {
+								return
+							}
+						}
+					}, len(x)+10)
+					got, _ := collect(mapSeq(sam.Reader(bytes.NewReader(x)), samKey), len(x)+10)
+					k.Count("sibling_runs_compared", 1)
+					if !sameTrace(got, want) {
+						k.Failf("sibling-run-differs", "sam.Reader's uninterrupted run differs from sam.ReaderHeader's without the header lines:\n got  %.1500s\n want %.1500s", traceString(got), traceString(want))
+					}
 				}
 			})
 			idx++
@@ -793,8 +826,12 @@ func shapeDigest(root *newick.Node) string {
 }
 
 func c19Deep(c *Ctx) {
-	depth := c.N(100000, 1000000)
-	for i, every := range []int{0, 1, 1000} {
+	depths := []int{c.N(100000, 1000000), c.N(100000, 1000000), c.N(100000, 1000000), 1<<20 + 3, 1<<21 + 1}
+	if c.Thorough {
+		depths = append(depths, 1<<22+5, 1<<23+1)
+	}
+	for i, depth := range depths {
+		every := []int{0, 1, 1000, 0, 7, 0, 0}[i]
 		c.Case(int64(i), func(k *K) {
 			root, cnt := chainTree(depth, every)
 			k.Input("chain_depth", depth)
